@@ -20,6 +20,8 @@ def zygote_init():
     global _ready
     if _ready:
         return
+    if hasattr(sys, "set_int_max_str_digits"):
+        sys.set_int_max_str_digits(0)      # histories carry wide bit-vector payloads as JSON integers
     setup_import_path()
     from . import world
     world.import_all()
